@@ -21,7 +21,8 @@ Definition tevs_eqb (a b : list tev) : bool :=
 Record srmon := { sm_truth : srstate; sm_view : tview; sm_delivered : list nat }.
 
 (* monitors on observed data: 6x -> C06, 19x -> C19 *)
-Definition srmon_step (rand : bool) (m : srmon) (st : srstepr) : option nat * srmon :=
+Definition srmon_step (ign : nat -> bool) (rand : bool) (m : srmon) (st : srstepr) : option nat * srmon :=
+  let hit := fun (c : nat) (b : bool) => b && negb (ign c) in
   let s := sm_truth m in
   let tr := sp_trace st in
   let view' := replay (sm_view m) tr in
@@ -42,53 +43,51 @@ Definition srmon_step (rand : bool) (m : srmon) (st : srstepr) : option nat * sr
         let R := sp_out st in
         let accepted := negb (memb (sm_id msg) (sr_seen s))
                         && (match sm_from msg with None => true | Some _ => memb (sm_topic msg) (sr_joined s) end) in
-        if existsb (sexcl msg) R then Some 61
-        else if existsb (fun p => negb (memb p tm)) R then Some 62
-        else if negb accepted && negb (match R with [] => true | _ => false end) then Some 62
-        else if accepted && negb rand && existsb (fun p => has_q s p && negb (sexcl msg p) && negb (memb p R)) tm then Some 63
-        else if accepted && rand && existsb (fun p => has_q s p && is_fs s p && negb (sexcl msg p) && negb (memb p R)) tm then Some 64
+        if hit 61 (existsb (sexcl msg) R) then Some 61
+        else if hit 62 (existsb (fun p => negb (memb p tm)) R) then Some 62
+        else if hit 62 (negb accepted && negb (match R with [] => true | _ => false end)) then Some 62
+        else if hit 63 (accepted && negb rand && existsb (fun p => has_q s p && negb (sexcl msg p) && negb (memb p R)) tm) then Some 63
+        else if hit 64 (accepted && rand && existsb (fun p => has_q s p && is_fs s p && negb (sexcl msg p) && negb (memb p R)) tm) then Some 64
         else None
     | _ => None
     end in
   let v19 :=
-    if negb (alt_ok (map fst (tv_mesh (sm_view m))) tr) then Some 191
-    else if negb (seteq (tv_peers view') (map fst (sr_peers s'))) || negb (seteq (map fst (tv_mesh view')) (sr_joined s')) then Some 192
-    else if negb (nodup_b delivered_now) || existsb (fun i => memb i (sm_delivered m)) delivered_now then Some 193
-    else if match sp_op st with
+    if hit 191 (negb (alt_ok (map fst (tv_mesh (sm_view m))) tr)) then Some 191
+    else if hit 192 (negb (seteq (tv_peers view') (map fst (sr_peers s'))) || negb (seteq (map fst (tv_mesh view')) (sr_joined s'))) then Some 192
+    else if hit 193 (negb (nodup_b delivered_now) || existsb (fun i => memb i (sm_delivered m)) delivered_now) then Some 193
+    else if hit 196 (match sp_op st with
             | RMsg msg _ =>
                 let local := match sm_from msg with None => true | Some _ => false end in
                 let accepted := negb (memb (sm_id msg) (sr_seen s)) && (local || memb (sm_topic msg) (sr_joined s)) in
                 negb (seteq delivered_now (if accepted then [sm_id msg] else []))
-            | _ => negb (match delivered_now with [] => true | _ => false end) end then Some 196
-    else if match sp_op st with
+            | _ => negb (match delivered_now with [] => true | _ => false end) end) then Some 196
+    else if hit 194 (match sp_op st with
             | RMsg msg _ => match sm_from msg with
                             | None => negb (match published_now with [i] => Nat.eqb i (sm_id msg) | _ => false end)
                             | Some _ => negb (match published_now with [] => true | _ => false end) end
-            | _ => negb (match published_now with [] => true | _ => false end) end then Some 194
-    else if negb (tevs_eqb (filter (fun x => match x with TSend _ | TDrop _ => true | _ => false end) tr) (map TSend (sp_rpcs st))) then Some 195
+            | _ => negb (match published_now with [] => true | _ => false end) end) then Some 194
+    else if hit 195 (negb (tevs_eqb (filter (fun x => match x with TSend _ | TDrop _ => true | _ => false end) tr) (map TSend (sp_rpcs st)))) then Some 195
     else None in
   (match v06 with Some c => Some c | None => v19 end,
    {| sm_truth := s'; sm_view := view'; sm_delivered := delivered_now ++ sm_delivered m |}).
 
 Section ForProperty.
 Variable which : nat.
-Definition srkeep (v : option nat) : option nat :=
-  match v with
-  | Some c => if Nat.eqb which 0 || Nat.eqb (c / 10) which then Some c else None
-  | None => None
-  end.
+Definition srkept (c : nat) : bool := Nat.eqb which 0 || Nat.eqb (c / 10) which.
+(* clauses of the other property are switched off, so that they cannot hide a clause of the property under check *)
+Definition srmon_pick (rand : bool) (m : srmon) (st : srstepr) : option nat * srmon := srmon_step (fun c => negb (srkept c)) rand m st.
 Fixpoint srmon_only (rand : bool) (m : srmon) (l : list srstepr) (idx : nat) : option (nat * nat) :=
   match l with
   | [] => None
-  | st :: l' => let (v, m') := srmon_step rand m st in
-                match srkeep v with Some c => Some (idx, c) | None => srmon_only rand m' l' (S idx) end
+  | st :: l' => let (v, m') := srmon_pick rand m st in
+                match v with Some c => Some (idx, c) | None => srmon_only rand m' l' (S idx) end
   end.
 Fixpoint srexec (rand : bool) (size : nat) (s : srstate) (m : srmon) (l : list srstepr) (idx : nat) : verdict :=
   match l with
   | [] => VOk
   | st :: l' =>
-      let (v, m') := srmon_step rand m st in
-      match srkeep v with
+      let (v, m') := srmon_pick rand m st in
+      match v with
       | Some c => VMonFail idx c
       | None =>
           let fail := fun code => match srmon_only rand m' l' (S idx) with Some (i, c) => VMonFail i c | None => VMismatch idx code end in
